@@ -23,7 +23,7 @@ patch = src / f"patch{k}.diff" if (src / f"patch{k}.diff").exists() else keep / 
 notes = src / f"notes{k}.md" if (src / f"notes{k}.md").exists() else keep / "notes.md"
 
 scratch = Path(tempfile.mkdtemp(prefix="jsv-benign-"))
-meta = {"written_for": pid, "variant": int(k)}
+meta = {"written_for": pid, "variant": k}
 try:
     repo = scratch / "repo"
     subprocess.run(["git", "clone", "-q", "--no-hardlinks", "/repo", str(repo)], check=True)
@@ -72,5 +72,5 @@ if patch.parent != keep:
     if notes.exists():
         shutil.copy(notes, keep / "notes.md")
 (keep / "meta.json").write_text(json.dumps(meta, indent=1))
-print(json.dumps({"for": pid, "k": int(k), "applies": meta.get("patch_applies"),
+print(json.dumps({"for": pid, "k": k, "applies": meta.get("patch_applies"),
                   "tests_pass": meta.get("tests_pass"), "alarms": meta.get("alarms")}))
